@@ -19,7 +19,7 @@ func init() {
 		Explanation: "(R1) host names are lower-cased on both sides: every domain that feeds the host tables in NewRouters and the request host in findVirtualHost flow through strings.ToLower; " +
 			"(R2) precedence: in findHighestPriorityIndex the decision points, tagged by the data they consult — (exact map, port), (exact map, \"*\"), (wildcard list of port), (wildcard list of \"*\"), default — are reachable only through the miss edges of the earlier ones, and each wildcard scan is a forward range loop that returns at the first suffix match under the guard hostLen < len(host); " +
 			"(R3) longest suffix first: every wildcard list is sorted after the last insertion and the comparator orders by decreasing hostLen; (R4) first match in configuration order: GetRouteFromEntries is a forward range over routes returning at the first non-nil Match, routes are only appended or truncated, never reordered; " +
-			"(R5) routes and fastIndex are touched only under the virtual host's mutex; (R6) purity: nothing reachable from MatchRoute/MatchAllRoutes/MatchRouteFromHeaderKV stores into a field of routersImpl, VirtualHostImpl or a route rule. (R5, view) a route list read under vh.mutex is not returned, stored or indexed after the lock is released while writers update the backing array in place. (R7) Path/Prefix/Regex rules return themselves only behind the true edges of matchRoute and of their own predicate applied as (request path variable, configured pattern); header/method/variable matchers and matchRoute have the all-of shape. (R7, helpers) the path predicate may live in a helper of the package receiving the request path; any further strings/regexp call on the request path besides the rule's own predicate is reported. (R1, round 5) every findVirtualHostIndex/findHighestPriorityIndex call made for a request takes the result of strings.ToLower - universally, not just the last one.",
+			"(R5) routes and fastIndex are touched only under the virtual host's mutex; (R6) purity: nothing reachable from MatchRoute/MatchAllRoutes/MatchRouteFromHeaderKV stores into a field of routersImpl, VirtualHostImpl or a route rule. (R5, view) a route list read under vh.mutex is not returned, stored or indexed after the lock is released while writers update the backing array in place. (R7) Path/Prefix/Regex rules return themselves only behind the true edges of matchRoute and of their own predicate applied as (request path variable, configured pattern); header/method/variable matchers and matchRoute have the all-of shape. (R7, helpers) the path predicate may live in a helper of the package receiving the request path; any further strings/regexp call on the request path besides the rule's own predicate is reported. (R1, round 5) every findVirtualHostIndex/findHighestPriorityIndex call made for a request takes the result of strings.ToLower - universally, not just the last one. (R1 every-domain-indexed) every edge leaving the loop over a virtual host's domains (in NewRouters or a helper it calls) from a block other than the loop header leads only to error returns.",
 		Run: runC04,
 	})
 }
@@ -42,18 +42,67 @@ func runC04(c *Ctx) {
 	if nr == nil {
 		c.Unresolved("C04.R1", "router.NewRouters")
 	} else {
+		// the domain loop may live in NewRouters or in a helper of the package that NewRouters calls
+		isGen := func(cc *ssa.CallCommon) bool { return methodName(cc) == "generateHostWithPortConfig" }
+		var dl *ssa.Function
+		var gens []CallSite
+		var reachFns []*ssa.Function
+		for f := range staticReach([]*ssa.Function{nr}, pkg) {
+			reachFns = append(reachFns, f)
+		}
+		sort.Slice(reachFns, func(i, j int) bool { return reachFns[i].String() < reachFns[j].String() })
+		for _, f := range reachFns {
+			for _, cs := range callsIn(f, false, isGen) {
+				if inLoop(cs.Instr.Block()) {
+					dl = f
+					gens = append(gens, cs)
+				}
+			}
+		}
 		// the value split into host/port for generateHostWithPortConfig is a ToLower result
-		ok := false
-		for _, cs := range callsIn(nr, false, func(cc *ssa.CallCommon) bool { return methodName(cc) == "generateHostWithPortConfig" }) {
-			a := argsOf(cs.Instr.Common())
-			if fromToLower(a[0], 0) {
-				ok = true
-			} else {
+		ok := len(gens) > 0
+		for _, cs := range gens {
+			if !fromToLower(argsOf(cs.Instr.Common())[0], 0) {
 				ok = false
-				break
 			}
 		}
 		c.Check("C04.R1", funcKey(nr)+":domains-lowercased", nr.Pos(), ok, "configured domains pass strings.ToLower before they index the host tables", "a configured domain reaches the host tables without strings.ToLower: mixed-case domains would never match")
+		// every configured domain is indexed: the loop over a virtual host's domains is left early only with an error. A
+		// silent early exit (return nil, break) drops the remaining domains: their hosts fall through to a wildcard or the
+		// default virtual host instead of the one that names them.
+		if dl != nil && len(gens) == 1 {
+			g := gens[0].Instr
+			var body map[*ssa.BasicBlock]bool
+			var header *ssa.BasicBlock
+			for h, b := range naturalLoops(dl) {
+				if b[g.Block()] && (body == nil || len(b) < len(body)) {
+					body, header = b, h
+				}
+			}
+			errIdx := dl.Signature.Results().Len() - 1
+			early := ""
+			// every edge that leaves the loop from a block other than its header (return, break, goto) may only lead to
+			// error returns
+			for b := range body {
+				if b == header {
+					continue
+				}
+				for _, t := range b.Succs {
+					if body[t] {
+						continue
+					}
+					reach := reachableFrom(t)
+					for _, in := range instrsWhere(dl, isReturn) {
+						if (in.Block() == t || reach[in.Block()]) && errIdx >= 0 && isNilConst(in.(*ssa.Return).Results[errIdx]) {
+							early = c.pos(nearestPos(b.Instrs[len(b.Instrs)-1])) + " -> return at " + c.pos(nearestPos(in))
+						}
+					}
+				}
+			}
+			c.Check("C04.R1", funcKey(dl)+":every-domain-indexed", g.Pos(), early == "", "the loop over a virtual host's domains is left early only with an error", "the loop over a virtual host's domains can be left without an error before all domains were indexed (exit at "+early+"): the domains listed after that point are silently dropped, so their hosts are routed by a wildcard or the default virtual host instead of the one that names them")
+		} else {
+			c.Fail("C04.R1", funcKey(nr)+":every-domain-indexed", nr.Pos(), fmt.Sprintf("expected one generateHostWithPortConfig call inside the domain loop of NewRouters or of a helper it calls, found %d", len(gens)))
+		}
 	}
 	fv := c.M(pkg, "routersImpl", "findVirtualHost")
 	if fv == nil {
@@ -85,6 +134,16 @@ func runC04(c *Ctx) {
 	if nr != nil {
 		sorts := callsIn(nr, false, func(cc *ssa.CallCommon) bool { return calleeName(cc) == "sort.Sort" || calleeName(cc) == "sort.Stable" })
 		gens := callsIn(nr, false, func(cc *ssa.CallCommon) bool { return methodName(cc) == "generateHostWithPortConfig" })
+		if len(gens) == 0 {
+			// the insertions happen in a helper NewRouters calls: order the sort after that call
+			gens = callsIn(nr, false, func(cc *ssa.CallCommon) bool {
+				f := cc.StaticCallee()
+				if f == nil || len(f.Blocks) == 0 {
+					return false
+				}
+				return len(callsIn(f, false, func(c2 *ssa.CallCommon) bool { return methodName(c2) == "generateHostWithPortConfig" })) > 0
+			})
+		}
 		ok := len(sorts) == 1 && len(gens) == 1
 		if ok {
 			ba := newBA(c, nr)
